@@ -52,7 +52,9 @@ def const_term(v):
         return T("float", s=repr(v))
     if v is Ellipsis:
         return T("const", s="Ellipsis")
-    if isinstance(v, (bytes, complex)):
+    if isinstance(v, bytes):
+        return T("bytes", p=[str(b) for b in v])
+    if isinstance(v, complex):
         return T("const", s=type(v).__name__ + ":" + repr(v))
     if isinstance(v, type):
         return T("const", s="class:" + v.__name__)
@@ -156,6 +158,8 @@ def dec(t):
         return ast.Constant(value=None)
     if k == "float":
         return ast.Constant(value=float(t["s"]))
+    if k == "bytes":
+        return ast.Constant(value=bytes(int(x) for x in t["p"]))
     if k == "const":
         if t["s"] == "Ellipsis":
             return ast.Constant(value=Ellipsis)
